@@ -343,7 +343,7 @@ func gen(r *lib.Rand, tier string, emit func(string)) {
 
 	// (1) every first decoder and every DecodeFromBytes type on short inputs: 0…N bytes of
 	//     zeros, ones and two random patterns (the shape that finds a missing length guard)
-	maxShort := 48
+	maxShort := 40
 	if thorough {
 		maxShort = 160
 	}
@@ -355,8 +355,8 @@ func gen(r *lib.Rand, tier string, emit func(string)) {
 	}
 	for n := 0; n <= maxShort; n++ {
 		for pi, pat := range pats {
-			if !thorough && n > 24 && (n+pi)%2 == 1 {
-				continue
+			if !thorough && n > 12 && (n+pi)%3 != 0 {
+				continue // quick tier: all patterns up to 12 bytes, two of the six per length beyond
 			}
 			in := []byte(nil)
 			if pat == nil {
@@ -378,18 +378,18 @@ func gen(r *lib.Rand, tier string, emit func(string)) {
 	for _, f := range all {
 		n := len(f.data)
 		for k := 0; k <= n; k++ {
-			if !thorough && n > 96 && k > 64 && k < n-8 && k%16 != 0 {
-				continue
-			}
-			if !thorough && k > 400 && k < n-8 {
-				continue
+			if !thorough && k < n-6 {
+				// quick tier: every prefix up to 40 bytes, every 8th up to 128, every 32nd beyond, and the last 6
+				if (k > 40 && k <= 128 && k%8 != 0) || (k > 128 && k%32 != 0) || k > 640 {
+					continue
+				}
 			}
 			one("all dec %s %d %s", f.first.name, nextOpts(), lib.Hex(f.data[:k]))
 		}
 	}
 
 	// (3) single-byte / length-field mutations of fixtures under their natural type
-	perFix := 40
+	perFix := 28
 	if thorough {
 		perFix = 1200
 	}
